@@ -40,7 +40,7 @@ def plan(tier, seed):
     specs = []
     fam = ["canonical", "hamiltonian", "canonical", "grand", "hamiltonian", "canonical"]
     for j in range(12 if not big else 36):
-        specs.append({"name": f"{fam[j % 6]}{j}", "mode": "mc", "family": fam[j % 6], "j": j, "seed": seed, "sims": 8 if not big else 30, "steps": 30 if not big else 100})
+        specs.append({"name": f"{fam[j % 6]}{j}", "mode": "mc", "family": fam[j % 6], "j": j, "seed": seed, "sims": 20 if not big else 40, "steps": 30 if not big else 100})
     for j in range(3 if not big else 8):
         specs.append({"name": f"forcebias{j}", "mode": "fb", "j": j, "seed": seed, "sims": 12 if not big else 60, "steps": 20 if not big else 100})
     specs.append({"name": "fixrot", "mode": "fixrot", "j": 0, "seed": seed, "n": 4000 if not big else 60000})
